@@ -474,6 +474,8 @@ CHECKS = {
                               "race part: workloads are seeded, schedules are the real scheduler's (not reproducible); SetClient and option registration happen before the goroutines start, as their documentation requires"],
         parts=[dict(name="random", run="TestC15Random", checks=dict(quick=5000, thorough=40000), shards=dict(quick=1, thorough=16)),
                dict(name="latency", run="TestC15Latency", checks=dict(quick=5000, thorough=50000), shards=dict(quick=1, thorough=8)),
+               # the same bound with UpdateReset called off-schedule and late (Target.Reset calls it on every reconnect)
+               dict(name="latency-irregular", run="TestC15LatencyIrregular", checks=dict(quick=8000, thorough=60000), shards=dict(quick=1, thorough=8)),
                dict(name="race", run="TestC15Race", rapid=False, race=True,
                     args=dict(quick=["-c15.rounds=150"], thorough=["-c15.rounds=2000"]), shards=dict(quick=1, thorough=4))],
     ),
